@@ -2,6 +2,7 @@ package props
 
 import (
 	"go/token"
+	"strings"
 
 	"golang.org/x/tools/go/ssa"
 
@@ -280,6 +281,95 @@ func c14() []*Ob {
 				}
 				if fn := c.Fn("frac.writeSealedFraction"); fn != nil {
 					MustPrecede(c, fn, Callee("(*frac.Info).BuildDistribution"), "info.BuildDistribution", Callee("(*frac.DiskBlocksWriter).writeInfoBlock"), "writeInfoBlock")
+				}
+			}},
+		{Prop: "C14", ID: "C14.6", Engine: "DOM(evidence)", Floor: 2,
+			Desc: "the LID-border predicate of a sealed fraction answers 'less or equal' only on evidence about that very position: sealedIDsIndex.LessOrEqual returns the constant true only when the lid is beyond the table, when the PREVIOUS block's minimum is already <= id (seq.LessOrEqual over MinBlockIDs[blockIndex-1]), or after comparing the position's own MID (GetMID(lid)) with id.MID — a shortcut taken from anything else makes the predicate non-monotone and the binary search of getLIDsBorders cuts documents of the requested range",
+			Check: func(c *Ctx) {
+				fn := c.Fn("(*frac.sealedIDsIndex).LessOrEqual")
+				if fn == nil {
+					return
+				}
+				var lid, id *ssa.Parameter
+				for _, p := range fn.Params {
+					switch p.Name() {
+					case "lid":
+						lid = p
+					case "id":
+						id = p
+					}
+				}
+				if lid == nil || id == nil {
+					c.Undecided("dom:sealedIDsIndex.LessOrEqual:params", fn.Pos(), "parameters lid/id not found")
+					return
+				}
+				fromID := func(v ssa.Value) bool {
+					return DerivesFrom(v, func(x ssa.Value) bool { return x == ssa.Value(id) })
+				}
+				ownMID := func(v ssa.Value) bool {
+					return DerivesFrom(v, func(x ssa.Value) bool {
+						cl, ok := x.(ssa.CallInstruction)
+						return ok && strings.HasSuffix(CallName(cl), ".GetMID") && len(cl.Common().Args) > 0 && DerivesFromNoCall(cl.Common().Args[len(cl.Common().Args)-1], func(y ssa.Value) bool { return y == ssa.Value(lid) })
+					})
+				}
+				evidence := func(f Fact) string {
+					switch x := f.Cond.(type) {
+					case *ssa.BinOp:
+						// beyond the table: lid >= total
+						if (x.Op == token.GEQ || x.Op == token.GTR) && f.Val && DerivesFromNoCall(x.X, func(y ssa.Value) bool { return y == ssa.Value(lid) }) && !fromID(x.Y) {
+							return "lid is beyond the id table"
+						}
+						// own MID compared with id.MID
+						if (ownMID(x.X) && fromID(x.Y)) || (ownMID(x.Y) && fromID(x.X)) {
+							switch {
+							case x.Op == token.EQL && f.Val, x.Op == token.NEQ && !f.Val:
+								return "own MID == id.MID"
+							case ownMID(x.X) && (x.Op == token.LSS || x.Op == token.LEQ) && f.Val:
+								return "own MID < id.MID"
+							case ownMID(x.Y) && (x.Op == token.GTR || x.Op == token.GEQ) && f.Val:
+								return "own MID < id.MID"
+							}
+						}
+					case *ssa.Call:
+						if f.Val && CallName(x) == "seq.LessOrEqual" && len(x.Call.Args) == 2 && fromID(x.Call.Args[1]) {
+							// first argument: MinBlockIDs[blockIndex-1]
+							if DerivesFromNoCall(x.Call.Args[0], func(y ssa.Value) bool {
+								ia, ok := y.(*ssa.IndexAddr)
+								if !ok {
+									return false
+								}
+								bo, ok := ia.Index.(*ssa.BinOp)
+								if !ok || bo.Op != token.SUB {
+									return false
+								}
+								k, isK := ConstInt(bo.Y)
+								return isK && k == 1
+							}) {
+								return "the previous block's minimum is <= id"
+							}
+						}
+					}
+					return ""
+				}
+				for _, b := range fn.Blocks {
+					ret, ok := b.Instrs[len(b.Instrs)-1].(*ssa.Return)
+					if !ok {
+						continue
+					}
+					if k, isK := ConstBool(RetOperand(ret, 0)); !isK || !k {
+						continue
+					}
+					why := ""
+					for _, f := range FactsAt(b) {
+						if w := evidence(f); w != "" {
+							why = w
+						}
+					}
+					if why != "" {
+						c.Site(ret.Pos(), "returns true because %s", why)
+					} else {
+						c.Violation("dom:sealedIDsIndex.LessOrEqual:true-without-evidence", ret.Pos(), "sealedIDsIndex.LessOrEqual answers true without the lid being out of range, the previous block's minimum being <= id, or the position's own MID having been compared with id.MID: the predicate is not monotone over the descending id table and getLIDsBorders cuts the LID window in the wrong place (documents of the requested time range disappear, or others appear)")
+					}
 				}
 			}},
 		{Prop: "C14", ID: "C14.5", Engine: "PROV+ORDER", Floor: 1,
